@@ -161,12 +161,58 @@ func runC20(c *core.Ctx) {
 		c.Check(bad == "", "C20.rejects", "type/conversion."+spec.name, fn.Pos(), "destination only touched across source.Kind() == the expected kind", bad)
 	}
 
+	c.Doc("C20.integers", "once the source integer was extracted, conversion to an integer destination cannot be refused", 1)
+	{
+		asInt := c.Func("type/conversion", "", "AsInt64")
+		isOK := func(v ssa.Value) bool {
+			e, ok := core.Canon(v).(*ssa.Extract)
+			if !ok || e.Index != 1 {
+				return false
+			}
+			cl, ok := e.Tuple.(*ssa.Call)
+			return ok && asInt != nil && core.IsCallTo(cl, asInt)
+		}
+		bad := ""
+		nOK := 0
+		for _, ret := range core.Returns(conv) {
+			if !core.Guarded(conv, ret, core.IsTrue(isOK)) {
+				continue
+			}
+			nOK++
+			if !successReturn(ret) {
+				bad = "convertFrom refuses (at " + c.Pos(ret.Pos()) + ") an integer source whose value was already extracted: some values of a compatible integer type (an unsigned value >= 2^63 travels as a negative int64) are rejected instead of preserved"
+			}
+		}
+		if asInt == nil || nOK == 0 {
+			c.Undecided("C20.integers", "type/conversion.convertFrom", conv.Pos(), "no return behind a successful AsInt64 found")
+		} else {
+			c.Check(bad == "", "C20.integers", "type/conversion.convertFrom", conv.Pos(), fmt.Sprintf("%d returns behind a successful AsInt64, all successes", nOK), bad)
+		}
+	}
+
 	c.Doc("C20.elementwise", "slices index by index over the whole source; struct fields paired by case-folded name", 2)
 	ruleElementwise(c, conv)
 
-	c.Doc("C20.errors", "a failing element conversion fails the whole conversion", 6)
+	c.Doc("C20.errors", "a failing element conversion fails the whole conversion, inside the package and at every caller", 6)
 	n := 0
-	for _, fn := range fns {
+	// the conversion package itself, and every caller of its entry points in the repository
+	callers := append([]*ssa.Function{}, fns...)
+	inPkg := map[*ssa.Function]bool{}
+	for _, f := range fns {
+		inPkg[f] = true
+	}
+	for _, fn := range c.RepoFuncs() {
+		if inPkg[fn] || c.IsTestFile(fn) || !notExample(fn) {
+			continue
+		}
+		for _, call := range core.Calls(fn) {
+			if f := core.StaticCallee(call); f != nil && f.Pkg != nil && f.Pkg.Pkg.Path() == core.Module+"/type/conversion" && hasErrorResult(f.Signature) >= 0 {
+				callers = append(callers, fn)
+				break
+			}
+		}
+	}
+	for _, fn := range callers {
 		ord := 0
 		for _, call := range core.Calls(fn) {
 			f := core.StaticCallee(call)
